@@ -7,6 +7,7 @@ read by the real `ttconv.stl.reader.to_model` and interpreted by the independent
 Families (every index of every family is executed):
   F-tf-*       every text field string up to the stated length over a byte-class alphabet, teletext and open
   F-charset-*  every byte 20h..FFh and every diacritic x letter pair under CCT 00, every byte under CCT 01..04
+  F-chain      two-block extension chains over every pair of short text fields (block boundary, filler handling)
   F-ebn        block sequences over EBN x CF x same/next SN (extension chains, user data, comments)
   F-cs         subtitle sequences over the cumulative status x programme start (snapshots through ISD.from_model)
   F-attr       JC x VP x lines x double height x display standard x row-count configuration
@@ -43,13 +44,13 @@ RULE = ("a case is one byte-level STL file (GSI + TTI blocks) plus a reader conf
         "non-zero label or a programme start; configuration family: a non-default option)")
 BOUNDS = {
   "quick": "text fields: all strings of length <= 4 over 15 (teletext) / 16 (open) byte classes, length <= 3 over the 21-class "
-           "union alphabet in both modes; CCT 00: every byte 20h-FFh, every (C1h-CFh) x (A-Z a-z space) pair; CCT 01-04 "
+           "union alphabet and length <= 5 over a 9-class core alphabet, each in both modes; CCT 00: every byte 20h-FFh, every (C1h-CFh) x (A-Z a-z space) pair; CCT 01-04 "
            "every byte 20h-FFh; EBN sequences: 3 blocks over EBN {0,1,EF,F0,FE,FF} x CF {0,1} x SN {same,next}; two-block chains over all text field pairs of length <= 2 over 5 classes; cumulative: 3 "
            "subtitles over CS 0..3 x 2 schedules x 3 programme starts, ISD snapshots at every boundary and midpoint; "
            "JC 0..3 x VP {0,1,11,12,22,23} x lines 1..3 x double height x {teletext, open x rows {-,MNR,11}}; TCI/TCO: "
            "{h 0,1,23}x{m 0,1,9,10,59}x{s 0,59}x all frames x 5 DFC x 6 programme starts; configuration product",
-  "thorough": "as quick with text fields of length <= 5 (length <= 4 over the union alphabet), EBN sequences of 4 blocks, "
-              "cumulative sequences of 4 subtitles",
+  "thorough": "as quick with text fields of length <= 5 (length <= 4 over the union alphabet, <= 6 over the core alphabet), "
+              "two-block chains over text field pairs of length <= 3, EBN sequences of 4 blocks, cumulative sequences of 4 subtitles",
 }
 ASSUMPTIONS = [
   "EBU Tech 3264-E (1991) as restated in mc/refstl.py is the reference; its Latin table is ISO 6937/2-1983, the 1992 "
@@ -63,6 +64,13 @@ ASSUMPTIONS = [
   "statement does not say whether they occupy a cell (80h-85h, and 00h-1Fh in open subtitles) a space is optional",
   "the background of open subtitles before any background code, the effect of boxing codes on the background, the "
   "alignment for JC 0, the region of cumulative sets and the region for a VP outside 1..rows are not asserted",
+  "files the specification does not give a meaning to are executed (the reader must not raise) but nothing else is "
+  "asserted: an unterminated extension chain followed by another subtitle, extension block numbers out of order, two "
+  "last blocks with one SN, CS 2/3 without a preceding CS 1, a cumulative set of which only some members precede the "
+  "programme start, TCO before TCI, labels with a field out of range",
+  "attribution: in a file with a comment block (CF=1) or with an 8Fh that is followed by other bytes, a mismatch that "
+  "disappears under the named deviant reading of the file (comment flag ignored / 8Fh stripped at both block ends) is "
+  "reported under that reading's single signature, whatever clause it surfaced in",
   "a line break in open subtitles is asserted not to reset the pen (isolated as C09.style.*/open-newline-carry: the "
   "statement is silent; the reader's choice is taken)",
 ]
@@ -385,7 +393,11 @@ def check_case(case, acc):
   data = build_file(case)
   cfg = case.get("config") or {}
   conf = build_config(cfg)
-  doc = stl_reader.to_model(io.BytesIO(data), conf)       # exceptions escape to the kernel: C09.crash
+  try:
+    doc = stl_reader.to_model(io.BytesIO(data), conf)
+  except Exception:
+    acc.case("reader-exception", nontrivial=True)         # counted, then classified by the kernel as C09.crash
+    raise
   has_comment = any(int(t.get("cf", 0)) == 1 and not 0xF0 <= int(t.get("ebn", 0xFF)) <= 0xFE for t in case["ttis"])
   has_inner_filler = any(b"\x8f" in bytes(t.get("tf", b"")).rstrip(b"\x8f") for t in case["ttis"])
   if not has_comment and not has_inner_filler:
